@@ -24,6 +24,14 @@ class StatefulSession(impl.Session):
 
     async def query(self, expression, sql, attrs):
         await self.env.fut(("app", self.cid))
+        if "stream" in sql:
+            # a result whose rows arrive over time: the connection's write buffer holds data while other connections run
+            async def rows():
+                for i in range(3):
+                    if i:
+                        await self.env.fut(("row", self.cid))
+                    yield (self.database, i, sql)
+            return rows(), ["db", "i", "sql"]
         return [(self.database, self.variables.get("sql_mode"), self.variables.get("character_set_client"),
                  self.username, sql, ",".join(f"{k}={v}" for k, v in sorted(attrs.items())))], ["db", "mode", "cs", "user", "sql", "attrs"]
 
@@ -47,8 +55,10 @@ def gen_program(rng, k):
             prog.append(("cmd", bytes([cl.COM_INIT_DB]) + b"i%d" % k))
         elif r < 0.4:
             prog.append(("cmd", bytes([cl.COM_QUERY]) + rng.choice([b"SET NAMES latin1", b"SET NAMES utf8mb4", b"SET autocommit = 0"])))
-        elif r < 0.55:
+        elif r < 0.48:
             prog.append(("app", bytes([cl.COM_QUERY]) + b"SELECT x FROM t%d" % k))
+        elif r < 0.55:
+            prog.append(("app", bytes([cl.COM_QUERY]) + b"SELECT s FROM stream%d" % k))
         elif r < 0.65:
             prog.append(("cmd", bytes([cl.COM_QUERY]) + rng.choice([b"SELECT @@sql_mode", b"SHOW VARIABLES LIKE 'sql_mode'", b"SELECT CONNECTION_ID() > 0"])))
         elif r < 0.75:
@@ -94,15 +104,15 @@ def run_interleaved(rng, programs, schedule_seed):
             ready = []
             for k, c in enumerate(conns):
                 b = c.blocked_on()
-                if b == "app":
-                    ready.append((k, "resolve"))
+                if b in ("app", "row"):
+                    ready.append((k, b))
                 elif b == "read" and pos[k] < len(programs[k]):
                     ready.append((k, "send"))
             if not ready:
                 break
             k, what = sched.choice(ready)
-            if what == "resolve":
-                env.resolve(("app", k), None)
+            if what in ("app", "row"):
+                env.resolve((what, k), None)
             else:
                 kind, payload = programs[k][pos[k]]
                 pos[k] += 1
@@ -166,7 +176,7 @@ def run(ctx: core.Ctx):
         ctx,
         rule="K = 2..4 connections on one event loop, each with a random stateful program (SET / USE / COM_INIT_DB / SET NAMES / "
              "prepare / long data / execute with and without cursor / fetch / variable reads / queries that stay in flight until the "
-             "harness completes them) under schedules drawn from a PRNG at event granularity (which packet is delivered next, which "
+             "harness completes them / results whose rows arrive one harness event at a time, so that buffered output is pending while others run) under schedules drawn from a PRNG at event granularity (which packet is delivered next, which "
              "in-flight query completes next); relation: each connection's byte transcript (connection id and nonce blanked) equals the "
              "transcript of the same program run alone. distinct = (program set, schedule)",
         samples=[dict(example_program=[repr(p)[:60] for p in gen_program(rng, 0)[:5]])], distinct=runs,
